@@ -819,6 +819,7 @@ package xpath
 //@   preserves heap(F:*Node.*), heap(S:query)      // the builder never writes the parse tree nor argument lists it did not create
 //@   requires root != nil
 //@   ensures[wf@C15] built(result0, result1)
+//@   ensures[known-axis@C17] result1 == nil ==> axisKnown(root.AxisType)
 //@ func (*builder).processFilter
 //@   props C15 C06 C17
 //@   requires[depth@C06] 0 <= b.parseDepth && b.parseDepth <= 1024
@@ -840,6 +841,8 @@ package xpath
 //@   requires root != nil
 //@   ensures[wf@C15] built(result0, result1)
 //@   loop 0 invariant[depth@C06] b.parseDepth == old(b.parseDepth)
+//@   ensures[known-function@C17] result1 == nil ==> fnKnown(root.FuncName)
+//@   ensures[arity@C17] result1 == nil ==> len(root.Args) >= minArgs(root.FuncName)
 //@ func (*builder).processOperator
 //@   props C15 C06 C17
 //@   requires[depth@C06] 0 <= b.parseDepth && b.parseDepth <= 1024
@@ -919,9 +922,11 @@ package xpath
 //@   props C15 C10
 //@   modifies nothing
 //@   ensures[shape@C10] result != nil && is(result, *axisNode)
+//@   ensures[fields@C10,C14] as(result, *axisNode).AxisType == axisType && as(result, *axisNode).typeTest == typeTest && as(result, *axisNode).LocalName == localName && as(result, *axisNode).Prefix == prefix && as(result, *axisNode).Prop == prop && as(result, *axisNode).Input == n
+//@   loop 0 invariant[fields@C10,C14] a.AxisType == axisType && a.typeTest == typeTest && a.LocalName == localName && a.Prefix == prefix && a.Prop == prop && a.Input == n && a.nodeType == nodeAxis
 //@ field newAxisNode.opts[](p)
 //@   requires p != nil
-//@   modifies p.*
+//@   modifies p.hasNamespaceURI, p.namespaceURI
 //@ func newVariableNode
 //@   props C15 C10
 //@   modifies nothing
@@ -955,6 +960,10 @@ package xpath
 //@   ensures[tier@C10] tOr(result)
 //@   ensures[munch@C10] stopOr(p.r)
 //@   loop 0 invariant[tier@C10] tOr(opnd) && stopAnd(p.r)
+//@   ensures[nonempty@C17] old(p.r.typ) != itemEOF
+//@   requires[swf@C17] swf(p.r)
+//@   ensures[swf@C17] swf(p.r)
+//@   loop 0 invariant[swf@C17] swf(p.r)
 //@ func (*parser).parseAndExpr
 //@   props C06 C10 C17 C15
 //@   requires[depth@C06] p != nil && 0 <= p.d && p.d <= 200
@@ -967,6 +976,10 @@ package xpath
 //@   ensures[tier@C10] tAnd(result)
 //@   ensures[munch@C10] stopAnd(p.r)
 //@   loop 0 invariant[tier@C10] tAnd(opnd) && stopEq(p.r)
+//@   ensures[nonempty@C17] old(p.r.typ) != itemEOF
+//@   requires[swf@C17] swf(p.r)
+//@   ensures[swf@C17] swf(p.r)
+//@   loop 0 invariant[swf@C17] swf(p.r)
 //@ func (*parser).parseEqualityExpr
 //@   props C06 C10 C17 C15
 //@   requires[depth@C06] p != nil && 0 <= p.d && p.d <= 200
@@ -979,6 +992,10 @@ package xpath
 //@   ensures[tier@C10] tEq(result)
 //@   ensures[munch@C10] stopEq(p.r)
 //@   loop 0 invariant[tier@C10] tEq(opnd) && stopRel(p.r)
+//@   ensures[nonempty@C17] old(p.r.typ) != itemEOF
+//@   requires[swf@C17] swf(p.r)
+//@   ensures[swf@C17] swf(p.r)
+//@   loop 0 invariant[swf@C17] swf(p.r)
 //@ func (*parser).parseRelationalExpr
 //@   props C06 C10 C17 C15
 //@   requires[depth@C06] p != nil && 0 <= p.d && p.d <= 200
@@ -991,6 +1008,10 @@ package xpath
 //@   ensures[tier@C10] tRel(result)
 //@   ensures[munch@C10] stopRel(p.r)
 //@   loop 0 invariant[tier@C10] tRel(opnd) && stopAdd(p.r)
+//@   ensures[nonempty@C17] old(p.r.typ) != itemEOF
+//@   requires[swf@C17] swf(p.r)
+//@   ensures[swf@C17] swf(p.r)
+//@   loop 0 invariant[swf@C17] swf(p.r)
 //@ func (*parser).parseAdditiveExpr
 //@   props C06 C10 C17 C15
 //@   requires[depth@C06] p != nil && 0 <= p.d && p.d <= 200
@@ -1003,6 +1024,10 @@ package xpath
 //@   ensures[tier@C10] tAdd(result)
 //@   ensures[munch@C10] stopAdd(p.r)
 //@   loop 0 invariant[tier@C10] tAdd(opnd) && stopMul(p.r)
+//@   ensures[nonempty@C17] old(p.r.typ) != itemEOF
+//@   requires[swf@C17] swf(p.r)
+//@   ensures[swf@C17] swf(p.r)
+//@   loop 0 invariant[swf@C17] swf(p.r)
 //@ func (*parser).parseMultiplicativeExpr
 //@   props C06 C10 C17 C15
 //@   requires[depth@C06] p != nil && 0 <= p.d && p.d <= 200
@@ -1015,6 +1040,10 @@ package xpath
 //@   ensures[tier@C10] tMul(result)
 //@   ensures[munch@C10] stopMul(p.r)
 //@   loop 0 invariant[tier@C10] tMul(opnd) && stopUnion(p.r)
+//@   ensures[nonempty@C17] old(p.r.typ) != itemEOF
+//@   requires[swf@C17] swf(p.r)
+//@   ensures[swf@C17] swf(p.r)
+//@   loop 0 invariant[swf@C17] swf(p.r)
 //@ func (*parser).parseUnaryExpr
 //@   props C06 C10 C17 C15
 //@   requires[depth@C06] p != nil && 0 <= p.d && p.d <= 200
@@ -1026,6 +1055,11 @@ package xpath
 //@   uses tier-unary
 //@   ensures[tier@C10] tUnary(result)
 //@   ensures[munch@C10] stopUnion(p.r)
+//@   ensures[nonempty@C17] old(p.r.typ) != itemEOF
+//@   requires[swf@C17] swf(p.r)
+//@   ensures[swf@C17] swf(p.r)
+//@   loop 0 invariant[swf@C17] swf(p.r)
+//@   loop 0 invariant[nonempty@C17] old(p.r.typ) == itemMinus || p.r.typ == old(p.r.typ)
 //@ func (*parser).parseUnionExpr
 //@   props C06 C10 C17 C15
 //@   requires[depth@C06] p != nil && 0 <= p.d && p.d <= 200
@@ -1038,6 +1072,10 @@ package xpath
 //@   ensures[tier@C10] tUnion(result)
 //@   ensures[munch@C10] stopUnion(p.r)
 //@   loop 0 invariant[tier@C10] tUnion(opnd)
+//@   ensures[nonempty@C17] old(p.r.typ) != itemEOF
+//@   requires[swf@C17] swf(p.r)
+//@   ensures[swf@C17] swf(p.r)
+//@   loop 0 invariant[swf@C17] swf(p.r)
 //@ func (*parser).parseSequence
 //@   props C06 C10 C17 C15
 //@   requires[depth@C06] p != nil && 0 <= p.d && p.d <= 200
@@ -1049,6 +1087,11 @@ package xpath
 //@   uses tier-path
 //@   ensures[tier@C10] tPath(result)
 //@   loop 0 invariant[tier@C10] tPath(opnd)
+//@   ensures[nonempty@C17] old(p.r.typ) != itemEOF
+//@   ensures[open-paren@C17] old(p.r.typ) == itemLParens
+//@   requires[swf@C17] swf(p.r)
+//@   ensures[swf@C17] swf(p.r)
+//@   loop 0 invariant[swf@C17] swf(p.r)
 //@ func (*parser).parsePrimaryExpr
 //@   props C06 C10 C17 C15
 //@   requires[depth@C06] p != nil && 0 <= p.d && p.d <= 200
@@ -1058,6 +1101,8 @@ package xpath
 //@   ensures[depth-restored@C06] p.d == old(p.d)
 //@   uses tier-path
 //@   ensures[tier@C10] tPath(result)
+//@   requires[swf@C17] swf(p.r)
+//@   ensures[swf@C17] swf(p.r)
 
 // ---------------------------------------------------------------------------
 // The regexp cache (cache.go). The cache is shared between goroutines: its map
@@ -1326,6 +1371,9 @@ package xpath
 //@   ensures[depth-restored@C06] p.d == old(p.d)
 //@   ensures[tier@C10] tOr(result)
 //@   ensures[munch@C10] stopOr(p.r)
+//@   ensures[nonempty@C17] old(p.r.typ) != itemEOF
+//@   requires[swf@C17] swf(p.r)
+//@   ensures[swf@C17] swf(p.r)
 //@ func (*parser).parsePathExpr
 //@   props C06 C10 C17
 //@   requires[depth@C06] p != nil && 0 <= p.d && p.d <= 200
@@ -1335,6 +1383,9 @@ package xpath
 //@   ensures[depth-restored@C06] p.d == old(p.d)
 //@   uses tier-path
 //@   ensures[tier@C10] tPath(result)
+//@   ensures[nonempty@C17] old(p.r.typ) != itemEOF
+//@   requires[swf@C17] swf(p.r)
+//@   ensures[swf@C17] swf(p.r)
 //@ func (*parser).parseFilterExpr
 //@   props C06 C10 C17
 //@   requires[depth@C06] p != nil && 0 <= p.d && p.d <= 200
@@ -1344,6 +1395,8 @@ package xpath
 //@   ensures[depth-restored@C06] p.d == old(p.d)
 //@   uses tier-path
 //@   ensures[tier@C10] tPath(result)
+//@   requires[swf@C17] swf(p.r)
+//@   ensures[swf@C17] swf(p.r)
 //@ func (*parser).parseMethod
 //@   props C06 C10 C17
 //@   requires[depth@C06] p != nil && 0 <= p.d && p.d <= 200
@@ -1355,6 +1408,11 @@ package xpath
 //@   loop 0 invariant[fresh-args@C06] args == nil || isFresh(args)
 //@   uses tier-path
 //@   ensures[tier@C10] tPath(result)
+//@   ensures[nonempty@C17] old(p.r.typ) != itemEOF
+//@   ensures[name@C17] old(p.r.typ) == itemName
+//@   requires[swf@C17] swf(p.r)
+//@   ensures[swf@C17] swf(p.r)
+//@   loop 0 invariant[swf@C17] swf(p.r)
 //@ func (*parser).parsePredicate
 //@   props C06 C10 C17
 //@   requires[depth@C06] p != nil && 0 <= p.d && p.d <= 200
@@ -1362,6 +1420,10 @@ package xpath
 //@   modifies heap(F:scanner.*), p.d
 //@   decreases 200 - p.d, 5
 //@   ensures[depth-restored@C06] p.d == old(p.d)
+//@   ensures[nonempty@C17] old(p.r.typ) != itemEOF
+//@   ensures[open-bracket@C17] old(p.r.typ) == itemLBracket
+//@   requires[swf@C17] swf(p.r)
+//@   ensures[swf@C17] swf(p.r)
 //@ func (*parser).parseLocationPath
 //@   props C06 C10 C17
 //@   requires[depth@C06] p != nil && 0 <= p.d && p.d <= 200
@@ -1371,6 +1433,9 @@ package xpath
 //@   ensures[depth-restored@C06] p.d == old(p.d)
 //@   uses tier-path
 //@   ensures[tier@C10] tPath(result)
+//@   ensures[nonempty@C17] old(p.r.typ) != itemEOF
+//@   requires[swf@C17] swf(p.r)
+//@   ensures[swf@C17] swf(p.r)
 //@ func (*parser).parseRelativeLocationPath
 //@   props C06 C10 C17
 //@   requires[depth@C06] p != nil && 0 <= p.d && p.d <= 200
@@ -1382,6 +1447,10 @@ package xpath
 //@   uses tier-path
 //@   ensures[tier@C10] tPath(result)
 //@   loop 0 invariant[tier@C10] true
+//@   ensures[nonempty@C17] old(p.r.typ) != itemEOF
+//@   requires[swf@C17] swf(p.r)
+//@   ensures[swf@C17] swf(p.r)
+//@   loop 0 invariant[swf@C17] swf(p.r)
 //@ func (*parser).parseStep
 //@   props C06 C10 C17
 //@   requires[depth@C06] p != nil && 0 <= p.d && p.d <= 200
@@ -1393,6 +1462,16 @@ package xpath
 //@   uses tier-path
 //@   ensures[tier@C10] tPath(result)
 //@   loop 0 invariant[tier@C10] tPath(opnd)
+//@   ensures[dot@C10] old(p.r.typ) == itemDot ==> axisIs(result, "self", allNode, "", "", n)
+//@   ensures[dotdot@C10] old(p.r.typ) == itemDotDot ==> axisIs(result, "parent", allNode, "", "", n)
+//@   ensures[at@C10] old(p.r.typ) == itemAt && is(result, *axisNode) ==> as(result, *axisNode).AxisType == "attribute" && as(result, *axisNode).Input == n
+//@   ensures[explicit-axis@C10] old(p.r.typ) == itemAxe && is(result, *axisNode) ==> as(result, *axisNode).AxisType == old(p.r.name) && as(result, *axisNode).Input == n
+//@   ensures[bare-name@C10] (old(p.r.typ) == itemName || old(p.r.typ) == itemStar) && is(result, *axisNode) ==> as(result, *axisNode).AxisType == "child" && as(result, *axisNode).Input == n
+//@   loop 0 invariant[abbrev@C10] is(opnd, *filterNode) || (old(p.r.typ) == itemDot ==> axisIs(opnd, "self", allNode, "", "", n)) && (old(p.r.typ) == itemDotDot ==> axisIs(opnd, "parent", allNode, "", "", n)) && (old(p.r.typ) == itemAt && is(opnd, *axisNode) ==> as(opnd, *axisNode).AxisType == "attribute" && as(opnd, *axisNode).Input == n) && (old(p.r.typ) == itemAxe && is(opnd, *axisNode) ==> as(opnd, *axisNode).AxisType == old(p.r.name) && as(opnd, *axisNode).Input == n) && ((old(p.r.typ) == itemName || old(p.r.typ) == itemStar) && is(opnd, *axisNode) ==> as(opnd, *axisNode).AxisType == "child" && as(opnd, *axisNode).Input == n)
+//@   ensures[nonempty@C17] old(p.r.typ) != itemEOF
+//@   requires[swf@C17] swf(p.r)
+//@   ensures[swf@C17] swf(p.r)
+//@   loop 0 invariant[swf@C17] swf(p.r)
 //@ func (*parser).parseNodeTest
 //@   props C06 C10 C17
 //@   requires[depth@C06] p != nil && 0 <= p.d && p.d <= 200
@@ -1402,48 +1481,83 @@ package xpath
 //@   ensures[depth-restored@C06] p.d == old(p.d)
 //@   uses tier-path
 //@   ensures[tier@C10] tPath(result)
+//@   ensures[axis@C10,C14] is(result, *axisNode) && as(result, *axisNode).AxisType == axeTyp && as(result, *axisNode).Input == n
+//@   ensures[name-test@C10,C14] old(p.r.typ) == itemStar ==> as(result, *axisNode).typeTest == matchType && as(result, *axisNode).LocalName == "" && as(result, *axisNode).Prefix == ""
+//@   ensures[nonempty@C17] old(p.r.typ) != itemEOF
+//@   requires[swf@C17] swf(p.r)
+//@   ensures[swf@C17] swf(p.r)
 //@ func (*parser).next
 //@   props C06
 //@   requires p != nil
+//@   requires[swf@C17] swf(p.r)
+//@   ensures[swf@C17] swf(p.r)
 //@   maypanic
 //@   modifies heap(F:scanner.*)
 //@ func (*parser).skipItem
 //@   props C06
 //@   requires p != nil
+//@   requires[swf@C17] swf(p.r)
+//@   ensures[swf@C17] swf(p.r)
 //@   maypanic
 //@   modifies heap(F:scanner.*)
+//@   ensures[token@C17] old(p.r.typ) == typ
 //@ func (*scanner).nextChar
-//@   props C06
+//@   props C06 C17
+//@   requires[swf@C17] 0 <= s.pos && s.pos <= len(s.text)
 //@   maypanic
-//@   modifies heap(F:scanner.*)
+//@   modifies s.curr, s.currSize, s.pos
+//@   ensures[swf@C17] swf(s) && old(s.pos) <= s.pos
+//@   ensures[advance@C17] (result ==> s.pos == old(s.pos) + s.currSize) && (!result ==> s.pos == old(s.pos) && s.currSize == 1)
 //@ func (*scanner).nextItem
-//@   props C06
+//@   props C06 C17
+//@   requires[swf@C17] swf(s)
 //@   maypanic
 //@   modifies heap(F:scanner.*)
+//@   ensures[swf@C17] swf(s)
+//@   ensures[qualified-name@C17] result && s.typ == itemName && s.prefix != "" ==> s.name != ""
 //@ func (*scanner).skipSpace
-//@   props C06
+//@   props C06 C17
+//@   requires[swf@C17] swf(s)
 //@   maypanic
-//@   modifies heap(F:scanner.*)
+//@   modifies s.curr, s.currSize, s.pos
+//@   ensures[swf@C17] swf(s)
+//@   loop 0 invariant[swf@C17] swf(s)
 //@ func (*scanner).scanFraction
-//@   props C06
+//@   props C06 C17
+//@   requires[swf@C17] swf(s)
 //@   maypanic
-//@   modifies heap(F:scanner.*)
+//@   modifies s.curr, s.currSize, s.pos
+//@   ensures[swf@C17] swf(s)
+//@   loop 0 invariant[swf@C17] swf(s)
 //@ func (*scanner).scanNumber
-//@   props C06
+//@   props C06 C17
+//@   requires[swf@C17] swf(s)
 //@   maypanic
-//@   modifies heap(F:scanner.*)
+//@   modifies s.curr, s.currSize, s.pos
+//@   ensures[swf@C17] swf(s)
+//@   loop 0 invariant[swf@C17] swf(s)
+//@   loop 1 invariant[swf@C17] swf(s)
 //@ func (*scanner).scanString
-//@   props C06
+//@   props C06 C17
+//@   requires[swf@C17] swf(s)
 //@   maypanic
-//@   modifies heap(F:scanner.*)
+//@   modifies s.curr, s.currSize, s.pos
+//@   ensures[swf@C17] swf(s)
+//@   loop 0 invariant[swf@C17] swf(s)
 //@ func (*scanner).scanName
-//@   props C06
+//@   props C06 C17
+//@   requires[swf@C17] swf(s)
 //@   maypanic
-//@   modifies heap(F:scanner.*)
+//@   modifies s.curr, s.currSize, s.pos
+//@   ensures[swf@C17] swf(s)
+//@   ensures[nonempty-name@C17] isName(old(s.curr)) ==> result != ""
+//@   loop 0 invariant[swf@C17] swf(s) && 0 <= c && c <= s.pos
+//@   loop 0 invariant[progress@C17] c >= 1 || s.curr == old(s.curr)
 //@ func checkItem
 //@   props C06
 //@   maypanic
 //@   modifies nothing
+//@   ensures[token@C17] r.typ == typ
 //@ func parse
 //@   props C06
 //@   maypanic
@@ -1463,14 +1577,9 @@ package xpath
 //@   props C06
 //@   modifies nothing
 //@   inline
-//@ func isName
-//@   props C06
-//@   modifies nothing
-//@ func isDigit
-//@   props C06
-//@   modifies nothing
 //@ func asItemType
 //@   props C06
+//@   inline
 //@   maypanic
 //@   modifies nothing
 
@@ -1501,3 +1610,18 @@ package xpath
 //@ define stopEq(r) = stopRel(r) && r.typ != itemEq && r.typ != itemNe
 //@ define stopAnd(r) = stopEq(r) && !tokOp(r, "and")
 //@ define stopOr(r) = stopAnd(r) && !tokOp(r, "or")
+
+// Abbreviations mean their expansions (both spellings build the same axisNode).
+//@ define axisIs(r, ax, tt, nm, px, inp) = is(r, *axisNode) ==> as(r, *axisNode).AxisType == ax && as(r, *axisNode).typeTest == tt && as(r, *axisNode).LocalName == nm && as(r, *axisNode).Prefix == px && as(r, *axisNode).Input == inp
+
+// ---------------------------------------------------------------------------
+// C17: what each rejection point guarantees on NORMAL return (a damaged construct cannot
+// get past it; the panic it raises instead is turned into an error by build, C06).
+//@ define fnKnown(f) = f == "lower-case" || f == "starts-with" || f == "ends-with" || f == "contains" || f == "matches" || f == "substring" || f == "substring-before" || f == "substring-after" || f == "string-length" || f == "normalize-space" || f == "replace" || f == "translate" || f == "not" || f == "name" || f == "local-name" || f == "namespace-uri" || f == "true" || f == "false" || f == "last" || f == "position" || f == "boolean" || f == "number" || f == "string" || f == "count" || f == "sum" || f == "ceiling" || f == "floor" || f == "round" || f == "concat" || f == "reverse" || f == "string-join"
+//@ define minArgs(f) = ite(f == "lower-case" || f == "string-length" || f == "not" || f == "count" || f == "sum" || f == "ceiling" || f == "floor" || f == "round" || f == "reverse", 1, ite(f == "starts-with" || f == "ends-with" || f == "contains" || f == "matches" || f == "substring" || f == "substring-before" || f == "substring-after" || f == "concat" || f == "string-join", 2, ite(f == "replace" || f == "translate", 3, 0)))
+//@ define axisKnown(a) = a == "ancestor" || a == "ancestor-or-self" || a == "attribute" || a == "child" || a == "descendant" || a == "descendant-or-self" || a == "following" || a == "following-sibling" || a == "parent" || a == "preceding" || a == "preceding-sibling" || a == "self"
+//@ func isName
+//@   pure
+//@ func isDigit
+//@   pure
+//@ define swf(s) = 0 <= s.pos && s.pos <= len(s.text) && 1 <= s.currSize && s.currSize <= 4 && s.currSize <= s.pos + 1
